@@ -322,11 +322,20 @@ func runC14(c *config) {
 				return
 			}
 		}
+		if gh, ok := rp.Detail["glob_history"].(string); ok {
+			h := c14gDec(gh)
+			with, _, dd, _ := c14gRun(h, true)
+			without, _, _, _ := c14gRun(h, false)
+			fmt.Printf("history (unnamed module-level entities): %s\n--- with the observer calls:\n%s\n--- without:\n%s\n--- dump difference: %s\n", gh, with, without, dd)
+			c14gCheck(o, h)
+			return
+		}
 		fmt.Println("replay: re-run ./check C14 with the same VERIF_SEED (histories are deterministic for a seed)")
 		return
 	}
 	c14Wide(c, newRng(c.seed, "c14wide"))
 	c14Share(c, newRng(c.seed, "c14share"))
+	c14Glob(c, newRng(c.seed, "c14glob"))
 	c14Consts(c, newRng(c.seed, "c14const"))
 	c14Metadata(c, newRng(c.seed, "c14md"))
 	for i := 0; i < 3000*c.scale; i++ {
